@@ -368,6 +368,23 @@ def gen_callbacks(seed, tier):
         ncols = 0
         hdr = 0
         ncb = 0
+        ncv = 0
+        if i % 10 == 0:
+            # several registrations on one cell, a copy of the cell added to a row, then one more registration on the
+            # original and one on the copy: every one of them fires on its own cell only
+            k = rng.randint(1, 4)
+            b.ops.append({"op": "rowitems", "t": 1, "items": [S("a")]})
+            b.rows.append({"sep": False, "n": 1, "tbl": 1})
+            tm = rng.choice(["render", "render", "pre"])
+            for _ in range(k):
+                b.ops.append({"op": "regcb", "t": 1, "owner": {"kind": "cell", "r": 1, "c": 1}, "time": "render", "target": "itself", "fails": 0})
+            b.ops.append({"op": "rowaddcell", "r": 1, "from": {"kind": "cell", "r": 1, "c": 1}})
+            b.rows[0]["n"] = 2
+            b.ops.append({"op": "regcb", "t": 1, "owner": {"kind": "cell", "r": 1, "c": 1}, "time": "render", "target": "itself", "fails": 0})
+            b.ops.append({"op": "regcb", "t": 1, "owner": {"kind": "cell", "r": 1, "c": 2}, "time": "render", "target": "itself", "fails": 0})
+            b.ops.append({"op": "rendercbs", "t": 1})
+            ncb = k + 2
+            ncols = 2
         for _ in range(rng.randint(4, 16)):
             r = rng.random()
             cells = [(j + 1, c) for j, x in enumerate(b.rows) for c in range(1, x["n"] + 1)]
@@ -378,6 +395,21 @@ def gen_callbacks(seed, tier):
                 b.ops.append({"op": "rowaddcell", "r": tgt, "from": {"kind": "cell", "r": a, "c": c}})
                 b.rows[tgt - 1]["n"] += 1
                 ncols = max([ncols] + [x["n"] for x in b.rows if x["tbl"]])
+            elif r < 0.14 and cells:
+                # a copy held by the caller (it carries the callbacks too), sometimes registered on, then added to a row
+                a, c = rng.choice(cells)
+                b.ops.append({"op": "copycell", "from": {"kind": "cell", "r": a, "c": c}})
+                ncv += 1
+                if rng.random() < 0.5 and ncb < 6:
+                    b.ops.append({"op": "regcb", "t": 1, "owner": {"kind": "cellvar", "v": ncv}, "time": rng.choice(["render", "pre"]),
+                                  "target": rng.choice(["itself", "cell", "row"]), "fails": 0})
+                    ncb += 1
+                tgts = [j + 1 for j, x in enumerate(b.rows) if not x["sep"]]
+                if tgts:
+                    tgt = rng.choice(tgts)
+                    b.ops.append({"op": "rowaddcell", "r": tgt, "from": {"kind": "cellvar", "v": ncv}})
+                    b.rows[tgt - 1]["n"] += 1
+                    ncols = max([ncols] + [x["n"] for x in b.rows if x["tbl"]])
             elif r < 0.45:
                 b.step(maxcells=3, items=lambda: S("a"))
                 op = b.ops[-1]
@@ -385,7 +417,7 @@ def gen_callbacks(seed, tier):
                     hdr = len(op["items"])
                     ncols = max(ncols, hdr)
                 ncols = max([ncols] + [x["n"] for x in b.rows if x["tbl"]])
-            elif r < 0.8 and ncb < 5:
+            elif r < 0.8 and ncb < 6:
                 owners = [{"kind": "table", "t": 1}] * 3 + [{"kind": "foreign"}]
                 owners += [{"kind": "column", "t": 1, "n": c} for c in range(0, ncols + 1)]
                 owners += [{"kind": "row", "r": j + 1} for j in range(len(b.rows))]
@@ -408,7 +440,10 @@ GLYPHS = list("abcdefghijklmnopqrstuvwxyzABCDEFGHIJKLMNOPQRSTUVWXYZ0123456789*+=
 
 TEXTS = ["a", "bb", "ccc", "", "x y", "line1\nline2", "tail\n", "\nlead", "a\n\nb", "日本", "é", "z​w",
          "\U0001F468‍\U0001F469‍\U0001F467", "\U0001F1E9\U0001F1EA", "wideＡ", "0", "-1.5", "three\nlines\nhere", " padded ",
-         "ｗｉｄｅ\nnarrow", "\U0001F44D\U0001F3FD ok", "한글", "longer text in a cell", "\n", "\n\n"]
+         "ｗｉｄｅ\nnarrow", "\U0001F44D\U0001F3FD ok", "한글", "longer text in a cell", "\n", "\n\n",
+         # texts for which the library's measure is not additive next to a space (a mark, modifier or prepended
+         # character at the edge of the cell): the slot strings are still checked, the whole-line measure is not
+         "\u05b0a", "\U0001F3FD", "a\u0600", "\uff9ea", "\ufe0fx"]
 
 
 def rnd_text_item(rng, texts=TEXTS, sized=0.15):
@@ -428,6 +463,11 @@ def rnd_text_item(rng, texts=TEXTS, sized=0.15):
     if r < sized + 0.1:
         return {"k": "other", "which": rng.choice(["int42", "float", "true", "named", "strhidden", "error"])}
     if r < sized + 0.13:
+        if sized > 0 and rng.random() < 0.5:
+            # a Cell value holding an item that declares its width or height (the cell reports what the item declares)
+            caps = rng.choice([["String", "Width"], ["String", "Height"]])
+            return {"k": "cell", "inner": {"k": "obj", "caps": caps, "strv": rng.choice([t for t in texts if "\n" not in t and t != ""]),
+                                           "h": rng.randint(0, 3), "w": rng.randint(0, 7)}}
         return {"k": "cell", "inner": S(rng.choice(texts))}
     return S(rng.choice(texts))
 
@@ -567,8 +607,12 @@ def gen_csv(seed, tier):
         r = rng.random()
         if r < 0.8:
             return S(bstr())
-        if r < 0.9:
+        if r < 0.88:
             return {"k": "obj", "caps": ["String"], "strv": bstr()}
+        if r < 0.92:
+            return {"k": "obj", "caps": rng.choice([[], ["Error"], ["GoString"]]), "strv": bstr(), "gov": bstr(), "errv": bstr()}
+        if r < 0.95:
+            return {"k": "rune", "s": rng.choice(["q", "é", "日"])}
         return {"k": "nil"}
     out = []
     for i in range(n):
@@ -616,7 +660,8 @@ def gen_html(seed, tier):
             if rng.random() < 0.5:
                 # the wrapper's options change between renders (generator set / replaced, strings changed)
                 b.ops.append({"op": "htmlopts", "w": 1, "id": hs() if rng.random() < 0.5 else "", "class": hs() if rng.random() < 0.5 else "",
-                              "caption": hs() if rng.random() < 0.5 else "", "gen": 1, "genvals": [hs() for _ in range(rng.randint(0, 3))]})
+                              "caption": hs() if rng.random() < 0.5 else "", "gen": 1 if rng.random() < 0.75 else 0,
+                              "genvals": [hs() for _ in range(rng.randint(0, 3))]})
                 b.ops.append({"op": "render", "w": 1, "entry": rng.choice(["Render", "RenderTo"])})
         out.append(b.ops)
     return out
@@ -668,6 +713,15 @@ def gen_json(seed, tier):
                 k = rng.randint(0, ncols) if good else rng.randint(0, ncols + 1)
                 b.ops.append({"op": "rowitems", "t": 1, "items": [item() for _ in range(k)]})
                 b.rows.append({"sep": False, "n": k, "tbl": 1})
+        objs = [(ref, it) for ref, it in cell_refs(b.ops) if it.get("k") == "obj" and ref["kind"] == "cell"]
+        if objs and rng.random() < 0.3:
+            # a by-value copy of a cell holds the same item object: a mutation shows through both in the JSON values
+            ref, it = rng.choice(objs)
+            tgt = ref["r"]
+            if b.rows[tgt - 1]["n"] < max(ncols, 1):
+                b.ops.append({"op": "rowaddcell", "r": tgt, "from": ref})
+                b.rows[tgt - 1]["n"] += 1
+            b.ops.append({"op": "mutate", "cell": ref, "item": rnd_obj(rng, JSON_TEXTS, caps=list(it["caps"]))})
         maxc = max([len(hdr) if b.ops and b.ops[1:2] and b.ops[1].get("op") == "headers" else 0] + [r["n"] for r in b.rows] + [0])
         for c in range(0, maxc + 1):
             if rng.random() < 0.3:
